@@ -1,0 +1,18 @@
+// Verification hooks. Compiled only with the cargo feature `hsivonen_encoding_rs_verif`;
+// with the feature off this module does not exist and nothing else changes.
+
+use core::sync::atomic::{AtomicBool, Ordering};
+
+static FORCE_SCALAR_UTF8: AtomicBool = AtomicBool::new(false);
+
+/// When set, `utf8_valid_up_to` skips the SIMD validator so that the built-in
+/// scalar validator is reachable for inputs of 64 bytes or more on CPUs that
+/// have SSE 4.2 / AVX2 / NEON.
+pub fn set_force_scalar_utf8_validation(on: bool) {
+    FORCE_SCALAR_UTF8.store(on, Ordering::SeqCst);
+}
+
+#[inline(always)]
+pub(crate) fn force_scalar_utf8_validation() -> bool {
+    FORCE_SCALAR_UTF8.load(Ordering::Relaxed)
+}
